@@ -25,7 +25,11 @@ META = {
     "note": "Bounded model checking (small layouts) plus sampled conformance; trusted: TLC, the transcription of the "
             "allocator arithmetic into AllocImpl.tla (bound by lock-step: result kind exactly, address as drift "
             "indicator), the drivers' event recording. Assumption A1: a segment is at least as large as the alignment "
-            "padding of its start (constructors underflow otherwise, reported as a note). Address-level claims are for "
+            "padding of its start - outside it PoolAllocator::new_uninit / FixedSizePoolAllocator::new underflow "
+            "(`ptr + size - adjusted_start`, pool_allocator.rs; panic with overflow checks, huge bucket count without); "
+            "FixedSizePoolAllocator::<N>::new also panics when the memory provides >= N buckets (its internal bump "
+            "allocator holds N instead of N+1 index cells). Both are constructor defects outside the statement of C15 "
+            "(not allocation requests); the probe records them as notes and they are not raised. Address-level claims are for "
             "single-threaded histories; concurrent index hand-out is C09. Growth is observed through one publisher and "
             "one subscriber in one process (two mappings of every segment).",
     "design_ref": "DESIGN.md 5 C15, 3.4, 3.5, 7 (hypothesis 7)",
